@@ -238,7 +238,8 @@ func (c *Client) Connect() error {
 	// numbered like every other one, as the server counts it in the "h" of its acknowledgements.
 	err = c.SendRaw(InitialPresence)
 	// Execute the post first connection hook. Typically this holds "ask for roster" and this type of actions.
-	if c.PostConnectHook != nil {
+	// A presence that could not be written is reported below, hook or not: the hook's result does not replace it.
+	if c.PostConnectHook != nil && err == nil {
 		err = c.PostConnectHook()
 		if err != nil {
 			// As in Resume: the attempt is reported as failed, so the session it had established is closed
